@@ -182,7 +182,8 @@ class Volume(CellModifierInput):
         ret = (
             f"VOLUME: in_cell: {self._in_cell_block}, calc_by_mcnp: {self.is_mcnp_calculated},"
             f" set_in_block: {self.set_in_cell_block}, "
-            f"Volume : {self._volume}"
+            # the data-block input hands its volumes to the cells and then forgets them
+            f"Volume : {getattr(self, '_volume', None)}"
         )
         return ret
 
